@@ -21,7 +21,7 @@ rm -f "$S/$DIR/zz_seed_demo_test.go"
 ( cd "$S" && go test -vet=off -count=1 ./... >/dev/null 2>&1 ) && echo "suite-with-change: PASS" || echo "suite-with-change: FAIL"
 for P in "$@"; do
   V=$(mktemp -d /tmp/seedv.XXXXXX)
-  cp /verif/known_findings.txt "$V/" 2>/dev/null
+  cp /verif/known_findings.txt "$V/" 2>/dev/null; cp -r /verif/models "$V/models" 2>/dev/null
   OUT=$(timeout 1500 /verif/bin/govc check -repo "$S" -verif "$V" -prop "$P" 2>&1)
   RC=$?
   echo "check $P: exit=$RC $(echo "$OUT" | grep -c '^VIOLATION') violation lines"
